@@ -1,8 +1,10 @@
 package vectorstore
 
 import (
+	"cmp"
 	"fmt"
 	"math"
+	"slices"
 	"time"
 
 	"github.com/rs/zerolog/log"
@@ -151,24 +153,34 @@ func (bq *binaryQuantizer) Fit() error {
 	// ---------------------------
 	/* Time to fit. We are doing two passes. First pass computes the mean of the
 	 * vectors. The second pass encodes the vectors. */
-	count := 0
-	var sum []float32
 	startTime := time.Now()
+	/* The items come in no particular order and floating point addition is not
+	 * associative, so we add the vectors up in id order. Otherwise the same
+	 * points could give thresholds that differ in the last bits from one run
+	 * to the next, and with them the bits of every vector that sits right at
+	 * the threshold. */
+	points := make([]*binaryQuantizedPoint, 0, bq.params.TriggerThreshold)
 	err := bq.items.ForEach(func(id uint64, point *binaryQuantizedPoint) error {
+		points = append(points, point)
+		return nil
+	})
+	if err != nil {
+		return err
+	}
+	slices.SortFunc(points, func(a, b *binaryQuantizedPoint) int {
+		return cmp.Compare(a.id, b.id)
+	})
+	var sum []float32
+	for _, point := range points {
 		if sum == nil {
 			sum = make([]float32, len(point.Vector))
 		}
 		for i, v := range point.Vector {
 			sum[i] += v
 		}
-		count++
-		return nil
-	})
-	if err != nil {
-		return err
 	}
 	for i := range sum {
-		sum[i] /= float32(count)
+		sum[i] /= float32(len(points))
 	}
 	bq.threshold = sum
 	// ---------------------------
